@@ -2672,6 +2672,10 @@ void vm_execute_record_unpack(vm * machine, bytecode * code)
     }
 
     unsigned int i = size;
+
+    machine->sp += size - 1;
+    vm_check_stack(machine);
+
     for (i = size; i > 0; i--)
     {
         gc_stack entry = { 0 };
@@ -2680,12 +2684,8 @@ void vm_execute_record_unpack(vm * machine, bytecode * code)
         entry.type = GC_MEM_ADDR;
         entry.addr = addr;
 
-        machine->stack[machine->sp + (i - 1)] = entry;
+        machine->stack[machine->sp - (size - i)] = entry;
     }
-
-    machine->sp += size - 1;
-
-    vm_check_stack(machine);
 }
 
 void vm_execute_nil_record_ref(vm * machine, bytecode * code)
@@ -2709,6 +2709,7 @@ void vm_execute_func_obj(vm * machine, bytecode * code) { /* no op */ }
 void vm_execute_dup(vm * machine, bytecode * code)
 {
     machine->sp++;
+    vm_check_stack(machine);
     machine->stack[machine->sp] = machine->stack[machine->sp - code->dup.n];
 }
 
@@ -2756,14 +2757,16 @@ void vm_execute_mark(vm * machine, bytecode * code)
     entryP.type = GC_MEM_STACK;
     entryP.addr = machine->pp;
 
-    machine->stack[machine->sp + 5] = entry3;
-    machine->stack[machine->sp + 4] = entry2;
-    machine->stack[machine->sp + 3] = entry1;
-    machine->stack[machine->sp + 2] = entryL;
-    machine->stack[machine->sp + 1] = entryP;
-
-    machine->fp = machine->sp = machine->sp + 5;
+    machine->sp = machine->sp + 5;
     vm_check_stack(machine);
+
+    machine->stack[machine->sp] = entry3;
+    machine->stack[machine->sp - 1] = entry2;
+    machine->stack[machine->sp - 2] = entry1;
+    machine->stack[machine->sp - 3] = entryL;
+    machine->stack[machine->sp - 4] = entryP;
+
+    machine->fp = machine->sp;
 }
 
 void vm_execute_call(vm * machine, bytecode * code)
@@ -2879,10 +2882,9 @@ void vm_execute_alloc(vm * machine, bytecode * code)
         entry.addr = addr;
 
         machine->sp++;
+        vm_check_stack(machine);
         machine->stack[machine->sp] = entry;
     }
-
-    vm_check_stack(machine);
 }
 
 void vm_execute_rewrite(vm * machine, bytecode * code)
